@@ -31,15 +31,19 @@ Proof.
   intros S H. unfold parse_usize. rewrite S, H. destruct (N.leb_spec n usize_max); split; intros; try discriminate; try lia; reflexivity.
 Qed.
 
-(* F3b: the TPTP rendering of a numeral panics iff the numeral is isize::MIN *)
-Theorem tptp_numeral_panic_iff n : tptp_numeral n = Panic <-> n = isize_min.
+(* F3b (repaired): the TPTP rendering of a numeral is total - it never panics, for isize::MIN in
+   particular - and prints the magnitude |n| *)
+Theorem tptp_numeral_total n :
+  tptp_numeral n = Value (if (n <? 0)%Z then "$uminus(" ++ nat_str (Z.abs_N n) ++ ")" else nat_str (Z.abs_N n)).
 Proof.
   unfold tptp_numeral. destruct (Z.ltb_spec n 0).
-  - destruct (Z.eqb_spec n isize_min); split; intros; try discriminate; try contradiction; auto.
-  - split; [discriminate|]. intros ->. unfold isize_min in *. lia.
+  - replace (Z.to_N (- n)) with (Z.abs_N n) by lia. reflexivity.
+  - replace (Z.to_N n) with (Z.abs_N n) by lia. reflexivity.
 Qed.
+Theorem tptp_numeral_never_panics n : tptp_numeral n <> Panic.
+Proof. rewrite tptp_numeral_total. discriminate. Qed.
 Theorem tptp_numeral_never_not_a_token n : tptp_numeral n <> NotAToken.
-Proof. unfold tptp_numeral. destruct (n <? 0)%Z; [destruct (n =? isize_min)%Z|]; discriminate. Qed.
+Proof. rewrite tptp_numeral_total. discriminate. Qed.
 
 (* F11: naming the i-th fresh global variable panics iff max_taken_var + i exceeds usize::MAX *)
 Theorem fresh_global_panic_iff m i : fresh_global m i = Panic <-> (usize_max < m + i)%N.
